@@ -1,9 +1,12 @@
 package main
 
 import (
+	"bytes"
 	"fmt"
 	"math/rand"
 	"os"
+	"regexp"
+	"strconv"
 	"strings"
 	"sync"
 )
@@ -49,6 +52,67 @@ func field(line, key string) string {
 
 // diffParseRun compares implementation and model on one source: PARSE, and if it
 // compiles, RUN without and with trace.  Returns the implementation's PARSE line.
+// domainExcluded: C06 (and with it every property about execution) excludes inputs whose
+// legitimate result would itself exhaust memory - string repetition beyond 2^20 bytes.  The
+// typed generator never builds such a program; inputs made by damaging tokens or bytes of a
+// generated program can (a string put to the left of `* 2147483648`).  This conservative
+// static test says "may": a string delimiter, a `*`, and numeric literals whose product
+// exceeds 2^26.  Such inputs are still parsed and compared, but not executed.
+var reNumLit = regexp.MustCompile(`(?:^|[^A-Za-z0-9_])(0[xX][0-9a-fA-F]+|[0-9]+(?:\.[0-9]+)?(?:[eE][+-]?[0-9]+)?)`)
+
+func domainExcluded(src []byte) bool {
+	if !bytes.Contains(src, []byte{'"'}) || !bytes.Contains(src, []byte{'*'}) {
+		return false
+	}
+	bound := 1.0
+	for _, sm := range reNumLit.FindAllSubmatch(src, -1) {
+		m := sm[1]
+		var v float64
+		if len(m) > 2 && (m[1] == 'x' || m[1] == 'X') {
+			u, err := strconv.ParseUint(string(m[2:]), 16, 64)
+			if err != nil {
+				return true
+			}
+			v = float64(u)
+		} else {
+			f, err := strconv.ParseFloat(string(m), 64)
+			if err != nil {
+				return true
+			}
+			v = f
+		}
+		if v >= 2 {
+			bound *= v
+		}
+		if bound > 1<<26 {
+			return true
+		}
+	}
+	return false
+}
+
+// diffParseOnly: the parse half of diffParseRun, for inputs that must not be executed.
+func diffParseOnly(res *Result, d *Driver, src []byte) (implLine string) {
+	op := fmt.Sprintf("PARSE %s %s 1", hxs("input"), hx(src))
+	impl := implParse("input", src, true)
+	model := ask(d, op)
+	res.Eval(1)
+	res.Count("domain-excluded.parsed-only", 1)
+	if impl != model {
+		res.Fail(Failure{Kind: "model-diff", Op: op, Input: string(src), Impl: impl, Model: model,
+			Note: "PARSE: dump, diagnostics, parse statistics or disassembly differ"})
+	}
+	return impl
+}
+
+// diffParseRunTok: diffParseRun for inputs obtained by damaging tokens or bytes.
+func diffParseRunTok(res *Result, d *Driver, src []byte, withRun bool) (implLine string) {
+	if domainExcluded(src) {
+		return diffParseOnly(res, d, src)
+	}
+	return diffParseRun(res, d, src, withRun)
+}
+
 func diffParseRun(res *Result, d *Driver, src []byte, withRun bool) (implLine string) {
 	// observable semantics end to end: what the properties talk about
 	si, sm := implInterp(src), ask(d, "INTERP "+hx(src))
